@@ -552,6 +552,21 @@ func genC14(w *bufio.Writer, r *rng, thorough bool) {
 		emit(w, "tr %s d:%s;m:%s:%s;d:%s;m:%s:%s;c:%s", labelHex("t"), l, l, l, l, l, l, l)
 		emit(w, "trpair %s d:%s;c:%s %s d:%s;d:%s;c:%s", labelHex("t"), l, x, labelHex("t"), l, l, x)
 	}
+	// runs of point / scalar appends (a caller that appends a running accumulator after each step)
+	for i := 0; i < 12; i++ {
+		var ops []string
+		for k := 0; k < 2+r.intn(5); k++ {
+			ops = append(ops, "p:"+labelHex("acc")+":"+pool[r.intn(len(pool))])
+			if r.coin(30) {
+				ops = append(ops, "s:"+labelHex("s")+":"+r.scalar())
+			}
+			if r.coin(40) {
+				ops = append(ops, "c:"+labelHex("x"))
+			}
+		}
+		ops = append(ops, "c:"+labelHex("x"))
+		emit(w, "tr %s %s", labelHex("acc"), strings.Join(ops, ";"))
+	}
 	// long pending buffers: many appends before one challenge
 	for _, total := range []int{1000, 1024, 1025, 2047, 4096, 5000, 20000} {
 		var ops []string
